@@ -18,7 +18,7 @@ peers, all trusted lists and all first-byte classes.
 * `parse_accepts_iff`, `parse_list_accepts_iff`  an entry is accepted iff netip accepts it as IP (no `/`) resp.
                                    CIDR (with `/`) and it is not IPv4-mapped; a list iff every entry is
 * `parsed_prefix_masked`, `single_ip_entry_matches_only_itself`
-* `mapped_peer_same_as_v4`, `zone_irrelevant`, `families_never_mix`   normalisation
+* `mapped_peer_same_as_v4`, `socket_forms_agree`, `zone_irrelevant`, `families_never_mix`   normalisation
 * `host_of_tcpaddr_v4`, `host_of_tcpaddr_v6`   `Host` returns the IP literal for both shapes a TCP address prints
 * `src_*`                          source-shape facts regenerated from /repo
 -/
@@ -139,6 +139,27 @@ theorem mapped_peer_same_as_v4 (trusted : List Prefix) (v : Nat) (hv : v < 2 ^ 3
   have : (PAddr.mk true (0xffff * 2 ^ 32 + v) z).normalise = (PAddr.mk false v []).normalise := by
     simp [PAddr.normalise, PAddr.unmap, PAddr.is4In6, PAddr.withoutZone, h1, h2]
   simp only [containsParsed, this]
+
+/-- a socket peer (`*net.TCPAddr` / `*net.UDPAddr`) carrying an IPv4 address as 16-byte IPv4-mapped slice (what a
+    dual-stack listener reports) must be judged exactly like the 4-byte form — this is the spec the harness's
+    `cta` probe evaluates on every `net.Addr` implementation (`viol:contains-mismatch`) -/
+theorem socket_forms_agree (trusted : List Prefix) (a b c d : UInt8) (z : Bytes) :
+    trustedSpec trusted false (addrOfIP [0, 0, 0, 0, 0, 0, 0, 0, 0, 0, 0xff, 0xff, a, b, c, d] z) =
+    trustedSpec trusted false (addrOfIP [a, b, c, d] []) := by
+  have hlt : beNat [a, b, c, d] < 2 ^ 32 := by
+    rw [beNat4]; have := a.toNat_lt; have := b.toNat_lt; have := c.toNat_lt; have := d.toNat_lt; omega
+  have h1 : (0xffff * 2 ^ 32 + beNat [a, b, c, d]) / 2 ^ 32 = 0xffff := by omega
+  have h2 : (0xffff * 2 ^ 32 + beNat [a, b, c, d]) % 2 ^ 32 = beNat [a, b, c, d] := by omega
+  have e16 : addrOfIP [0, 0, 0, 0, 0, 0, 0, 0, 0, 0, 0xff, 0xff, a, b, c, d] z
+      = some ⟨true, 0xffff * 2 ^ 32 + beNat [a, b, c, d], z⟩ := by
+    simp only [addrOfIP, List.length_cons, List.length_nil]; rw [beNat_mapped]; rfl
+  have e4 : addrOfIP [a, b, c, d] [] = some ⟨false, beNat [a, b, c, d], []⟩ := by
+    simp [addrOfIP]
+  rw [e16, e4]
+  simp only [trustedSpec, Bool.not_false, Bool.true_and]
+  have : canon ⟨true, 0xffff * 2 ^ 32 + beNat [a, b, c, d], z⟩ = canon ⟨false, beNat [a, b, c, d], []⟩ := by
+    simp [canon, h1, h2]
+  rw [this]
 
 /-- the zone of the peer never matters -/
 theorem zone_irrelevant (trusted : List Prefix) (a : PAddr) (z : Bytes) :
